@@ -355,6 +355,8 @@ class Gen:
         self.redundant = redundant_parens
         self.used = set()
         self.known = set()     # known-finding keys this unit exercises
+        self.allow_edges = False
+        self.edges = []
 
     def name(self, p="v"):
         while True:
@@ -621,7 +623,16 @@ class DeclGen(Gen):
             q = q if (kwd == "VAR" and q == "CONSTANT") else None
         lx = [kw(kwd)] + ([kw(q)] if q else []) + [N]
         trees = []
+        self.edges = []
         for _ in range(r.choice([1, 1, 2, 3])):
+            if vt == "input" and self.allow_edges and r.random() < 0.25:
+                # an edge-detecting input: it carries the block's qualifier like the other inputs
+                n = self.name("clk")
+                d = r.choice(["R_EDGE", "F_EDGE"])
+                lx += [ident(n), sym(":"), kw("BOOL"), kw(d), sym(";"), N]
+                self.edges.append(T("EdgeVarDecl", identifier=low(n), direction="rising" if d == "R_EDGE" else "falling",
+                                    qualifier=self.QUAL[q]))
+                continue
             if vt == "inout":
                 # in-out variables are references: only a type name
                 n = self.name("v")
@@ -807,10 +818,14 @@ class DeclGen(Gen):
         lx.append(N)
         vars_ = []
         kinds = {"FUNCTION": ["VAR_INPUT", "VAR", "VAR_OUTPUT", "VAR_IN_OUT"], "FUNCTION_BLOCK": None, "PROGRAM": ["VAR", "VAR_INPUT", "VAR_OUTPUT", "VAR_EXTERNAL"]}[kind]
+        edges = []
+        self.allow_edges = kind == "FUNCTION_BLOCK"
         for _ in range(r.choice([0, 1, 1, 2, 3])):
             l, t = self.var_block(kinds, in_function=(kind == "FUNCTION"))
             lx += l
             vars_ += t
+            edges += self.edges
+        self.allow_edges = False
         body = self.stmt_list(0, r.choice([0, 1, 2, 3, 4])) if kind != "FUNCTION" else self.stmt_list(0, r.choice([1, 2, 3]))
         lx += self.stmts(body)
         lx += [kw("END_" + kind), N]
@@ -818,7 +833,7 @@ class DeclGen(Gen):
         if kind == "FUNCTION":
             tree = T("FunctionDeclaration", name=low(n), return_type=T("Type", name=low(rt)), variables=vars_, edge_variables=[], body=bt)
         elif kind == "FUNCTION_BLOCK":
-            tree = T("FunctionBlockDeclaration", name=low(n), variables=vars_, edge_variables=[],
+            tree = T("FunctionBlockDeclaration", name=low(n), variables=vars_, edge_variables=edges,
                      body=T("Statements", body=bt) if bt else "empty")
         else:
             tree = T("ProgramDeclaration", name=low(n), variables=vars_, access_variables=[],
